@@ -226,12 +226,15 @@ func (m *BaseUndoLogManager) FlushUndoLog(tranCtx *types.TransactionContext, con
 
 	parseContext := make(map[string]string, 0)
 	parseContext[serializerKey] = undo.UndoConfig.LogSerialization
-	parseContext[compressorTypeKey] = undo.UndoConfig.CompressConfig.Type
-	undoLogContent := m.encodeUndoLogCtx(parseContext)
 	rollbackInfo, err := m.serializeBranchUndoLog(&branchUndoLog, parseContext[serializerKey])
 	if err != nil {
 		return err
 	}
+	// the context must declare what was really done to rollback_info: the reader decompresses by it
+	if rollbackInfo, parseContext[compressorTypeKey], err = m.compressRollbackInfo(rollbackInfo); err != nil {
+		return err
+	}
+	undoLogContent := m.encodeUndoLogCtx(parseContext)
 
 	return m.InsertUndoLog(undo.UndologRecord{
 		BranchID:     tranCtx.BranchID,
@@ -525,15 +528,16 @@ func (m *BaseUndoLogManager) deserializeBranchUndoLog(rbInfo []byte, logCtx map[
 		logParser parser.UndoLogParser
 	)
 
-	if serialzerType := m.getSerializer(logCtx); serialzerType != "" {
-		if logParser, err = parser.GetCache().Load(serialzerType); err != nil {
-			return nil, err
-		}
+	if logParser, err = parser.GetCache().Load(m.getSerializer(logCtx)); err != nil {
+		return nil, err
 	}
 
 	var branchUndoLog *undo.BranchUndoLog
 	if branchUndoLog, err = logParser.Decode(rbInfo); err != nil {
 		return nil, err
+	}
+	if branchUndoLog == nil {
+		return nil, fmt.Errorf("undo log content is empty")
 	}
 
 	return branchUndoLog, nil
@@ -546,6 +550,20 @@ func (m *BaseUndoLogManager) serializeBranchUndoLog(log *undo.BranchUndoLog, ser
 	}
 
 	return logParser.Encode(log)
+}
+
+// compressRollbackInfo compresses the serialized undo log with the configured compressor and
+// returns the compress type to record in the undo log context
+func (m *BaseUndoLogManager) compressRollbackInfo(rollbackInfo []byte) ([]byte, string, error) {
+	compressConfig := undo.UndoConfig.CompressConfig
+	if !compressConfig.Enable {
+		return rollbackInfo, string(compressor.CompressorNone), nil
+	}
+	compressed, err := compressor.CompressorType(compressConfig.Type).GetCompressor().Compress(rollbackInfo)
+	if err != nil {
+		return nil, "", err
+	}
+	return compressed, compressConfig.Type, nil
 }
 
 func (m *BaseUndoLogManager) encodeUndoLogCtx(undoLogCtx map[string]string) []byte {
